@@ -11,3 +11,6 @@ mod linalg_swaps;
 
 #[cfg(kani)]
 mod chrono_weekday;
+
+#[cfg(kani)]
+mod int_facts;
